@@ -156,11 +156,12 @@ def k2_leaf(i: int, j: int, s0: int, s1: int, bsel: int):
     check((m is not None) == same, 'leaf.match_not_equivalent_to_equality', (a, b, pc.R(i), pc.R(j)))
     # bool vs int vs str
     other = [False, True, '0', 0.0][pc.pin(bsel, 0, 3)]
+    ic = pc.pin(i, -3, 3)       # concrete from here on: type distinctions are made on the real int object (a symbolic proxy has no real __class__)
     t2 = ast.Constant(value=other)
-    m2 = MConstant(value=i).match(t2)
-    check(m2 is None, 'leaf.int_pattern_matches_non_int_constant', (pc.R(i), other))
-    m3 = MConstant(value=other).match(ast.Constant(value=i))
-    check(m3 is None, 'leaf.non_int_pattern_matches_int_constant', (pc.R(i), other))
+    m2 = MConstant(value=ic).match(t2)
+    check(m2 is None, 'leaf.int_pattern_matches_non_int_constant', (ic, other))
+    m3 = MConstant(value=other).match(ast.Constant(value=ic))
+    check(m3 is None, 'leaf.non_int_pattern_matches_int_constant', (ic, other))
     cover('ok')
 
 
